@@ -74,6 +74,28 @@ Proof.
   intros H E. pose proof (wrap64_fits z) as F. rewrite E in F. congruence.
 Qed.
 
+(** [wrap64 x] differs from [x] by a multiple of [2^64]; used to reason about chains of wrapped additions *)
+Lemma wrap64_decomp x : exists k, wrap64 x = x + k * 2 ^ 64.
+Proof.
+  unfold wrap64, wrap_s. exists (- ((x + 2 ^ 63) / (2 * 2 ^ 63))).
+  rewrite Z.mod_eq by lia. change (2 ^ 64) with (2 * 2 ^ 63). lia.
+Qed.
+Lemma wrap64_ext a b : (exists k, a = b + k * 2 ^ 64) -> wrap64 a = wrap64 b.
+Proof.
+  intros [k ->]. unfold wrap64, wrap_s. f_equal. change (2 ^ 64) with (2 * 2 ^ 63).
+  replace (b + k * (2 * 2 ^ 63) + 2 ^ 63) with (b + 2 ^ 63 + k * (2 * 2 ^ 63)) by lia.
+  apply Z_mod_plus_full.
+Qed.
+(** replace one innermost [wrap64 x] of the goal by [x + k * 2^64] *)
+Ltac unwrap1 k :=
+  match goal with
+  | |- context [wrap64 ?x] =>
+      lazymatch x with
+      | context [wrap64 _] => fail
+      | _ => let E := fresh "E" in destruct (wrap64_decomp x) as [k E]; rewrite E; clear E
+      end
+  end.
+
 Lemma i64_op_fits p z : fits_i64 z = true -> i64_op p z = Ok z.
 Proof. intros H. unfold i64_op. now rewrite H. Qed.
 Lemma i64_op_debug_overflow z : fits_i64 z = false -> i64_op Debug z = Panic POverflow.
@@ -444,25 +466,24 @@ Definition div_unreachable_class (m : sqlmode) (l r : sqlvalue) : bool :=
   | _ => false
   end.
 
+Ltac fin_iff :=
+  split;
+  [ first [ discriminate | intros [= <-]; split; reflexivity ]
+  | first [ intros [_ ?]; discriminate | intros [-> _]; reflexivity ] ].
+
 Theorem divide_panic_iff m l r x :
   divide m l r = Panic x <-> x = PUnreachable /\ div_unreachable_class m l r = true.
 Proof.
   unfold divide, div_unreachable_class.
   destruct (is_null l || is_null r) eqn:N; cbn [negb andb].
-  { split; [discriminate|intros [_ ?]; discriminate]. }
-  destruct l, r; cbn [is_float_value orb division_result_type];
-    try (match goal with |- context [if ?c =? 0 then _ else _] => destruct (c =? 0) end;
-         destruct m; cbn [division_result_type is_float_value orb];
-         unfold coerce_numeric_values; cbn [is_boolean is_exact_numeric orb andb to_i64 coerced_right_is_zero];
-         split; [discriminate|intros [_ H]; repeat match type of H with context [if ?c then _ else _] => destruct c end; discriminate]);
-    (destruct (coerce_numeric_values _ _) as [[c1 c2|c1 c2|c1 c2]| |] eqn:C; cbn [bind];
-     [ destruct (coerced_right_is_zero _) eqn:Z; cbn [negb andb];
-       [ split; [discriminate|intros [_ ?]; discriminate]
-       | destruct m; cbn [division_result_type is_float_value orb];
-         split; try discriminate; try (intros [= <-]; auto); try (intros [_ ?]; discriminate);
-         try (intros [-> _]; reflexivity) ] ..
-     | split; [discriminate|intros [_ ?]; discriminate]
-     | exfalso; eapply coerce_never_panics; eassumption ]).
+  { fin_iff. }
+  destruct l, r; unfold coerce_numeric_values;
+    cbn [is_boolean is_exact_numeric is_approximate_numeric is_int3 is_numeric_variant orb andb
+         boolean_to_i64 to_i64 to_f64 opt_or];
+    repeat match goal with b : bool |- _ => destruct b end;
+    cbn [opt_or bind coerced_right_is_zero];
+    try match goal with |- context [if ?c then _ else _] => destruct c end;
+    destruct m; cbn [negb andb division_result_type is_float_value orb]; fin_iff.
 Qed.
 
 (** [CAST(1.5 AS FLOAT) / 2] in the default (MySQL) mode; [TRUE / 1.5] in SQLite mode *)
